@@ -96,9 +96,10 @@ def oracle_lattice(kind, k):
     return np.array(list(seen.values()))
 
 
-def match(A, B, tol):
+def match(A, B_, tol):
     """bijection between the rows of A and B within tol; returns (index array A->B) or None + reason"""
     from scipy.spatial import cKDTree
+    B = B_
     if len(A) != len(B):
         return None, f"sizes differ: {len(A)} vs {len(B)}"
     d, i = cKDTree(B).query(A)
@@ -111,9 +112,63 @@ def match(A, B, tol):
 
 
 # ----------------------------------------------------------------------------------------------
+# input representations: the same flag / integer in every form the public API accepts on the unchanged tree; the
+# result must not depend on the form (the model takes the denoted value)
+# ----------------------------------------------------------------------------------------------
+BOOL_FAMS = {
+    "py": lambda b: bool(b),
+    "np.True_/False_": lambda b: np.True_ if b else np.False_,
+    "np.bool_": lambda b: np.bool_(b),
+    "bool_array_element": lambda b: np.array([bool(b), not b])[0],
+    "np.any": lambda b: np.any(np.array([bool(b), False])),
+    "0d_bool_array": lambda b: np.array(bool(b)),
+    "int": lambda b: 1 if b else 0,
+    "np.int64": lambda b: np.int64(1 if b else 0),
+}
+INT_FAMS = {
+    "py": lambda n: int(n),
+    "np.int64": lambda n: np.int64(n),
+    "np.int32": lambda n: np.int32(n),
+    "np.uint16": lambda n: np.uint16(n),
+    "0d_int_array": lambda n: np.array(int(n)),
+}
+# established on the unchanged tree (all three classes, levels 0-2): every family above is accepted by every flag /
+# integer argument the harness passes and gives the same result as the plain Python value.  Left out:
+REP_EXCLUDED = {
+    "get_edges_of_categories(data=<non-bool>)": "the flag is handed to networkx, where anything but the bool True/False names an "
+                                               "edge attribute (AttributeError / different tuples on the unchanged tree)",
+    "negative N": "AssertionError on the unchanged tree for every representation (outside the model, N is a count)",
+}
+
+
+def B(rep, b):
+    return BOOL_FAMS[(rep or {}).get("b", "py")](b)
+
+
+def I(rep, n):
+    return None if n is None else INT_FAMS[(rep or {}).get("i", "py")](n)
+
+
+def draw_rep(rng):
+    return {"b": rng.choice(list(BOOL_FAMS)), "i": rng.choice(list(INT_FAMS)), "pos": rng.random() < 0.5}
+
+
+def call_get_nodes(p, N, proj, rep):
+    if (rep or {}).get("pos"):
+        return p.get_nodes(I(rep, N), B(rep, proj))
+    return p.get_nodes(N=I(rep, N), projection=B(rep, proj))
+
+
+def call_get_half(p, N, proj, rep):
+    if (rep or {}).get("pos"):
+        return p.get_half_of_hypercube(B(rep, proj), I(rep, N))
+    return p.get_half_of_hypercube(projection=B(rep, proj), N=I(rep, N))
+
+
+# ----------------------------------------------------------------------------------------------
 # implementation side
 # ----------------------------------------------------------------------------------------------
-def snapshot(p, kind):
+def snapshot(p, kind, rep=None):
     G = p.G
     nodes = list(G.nodes)
     snap = {
@@ -126,8 +181,8 @@ def snapshot(p, kind):
         "edges": list(G.edges()),
         "cur": p.current_level, "max_ci": p.current_max_ci, "side_len": p.side_len,
     }
-    for name, fn in (("get", lambda: p.get_nodes()), ("getp", lambda: p.get_nodes(projection=True)),
-                     ("half", lambda: p.get_half_of_hypercube()), ("halfp", lambda: p.get_half_of_hypercube(projection=True))):
+    for name, fn in (("get", lambda: call_get_nodes(p, None, False, rep)), ("getp", lambda: call_get_nodes(p, None, True, rep)),
+                     ("half", lambda: call_get_half(p, None, False, rep)), ("halfp", lambda: call_get_half(p, None, True, rep))):
         if name.startswith("half") and kind != "cube4":
             continue
         try:
@@ -139,17 +194,17 @@ def snapshot(p, kind):
     return snap
 
 
-def impl_deep(kind, levels):
+def impl_deep(kind, levels, rep=None):
     """(snapshots after 0..j divisions, error or None): j < levels only when construction / divide_edges raised"""
     snaps = []
     try:
         with core.quiet():
             p = _cls(kind)()
-        snaps.append(snapshot(p, kind))
+        snaps.append(snapshot(p, kind, rep))
         for k in range(1, levels + 1):
             with core.quiet():
                 p.divide_edges()
-            snaps.append(snapshot(p, kind))
+            snaps.append(snapshot(p, kind, rep))
             if p.G.number_of_nodes() != len(oracle_lattice(kind, k)):
                 # already a reported violation of the statement; deeper levels of a broken graph only cost time
                 return snaps, {"err": "stopped", "msg": "node count differs from the lattice size", "at": k + 1, "stopped": True}
@@ -178,18 +233,18 @@ def impl_history(case):
                     p.divide_edges()
                     out.append({"ok": p.G.number_of_nodes()})
                 elif op[0] == "O":
-                    err, changed = call_observer(p, op[1])
+                    err, changed = call_observer(p, op[1], op[2] if len(op) > 2 else None)
                     if err:
                         out.append({"err": err})
                     else:
                         out.append({"ok": p.G.number_of_nodes(), "changed": changed})
                 elif op[0] == "G":
-                    r = np.array(p.get_nodes(N=op[1], projection=bool(op[2])))
+                    r = np.array(call_get_nodes(p, op[1], bool(op[2]), op[3] if len(op) > 3 else None))
                     full = np.array(p.get_nodes(N=None, projection=bool(op[2])))
                     out.append({"rows": rows2d(r, DIM[kind]), "full": full, "raw": np.array(p.get_nodes()),
                                 "ci_of": {n: p.G.nodes[n].get("central_index") for n in p.G.nodes}})
                 elif op[0] == "H":
-                    r = np.array(p.get_half_of_hypercube(N=op[1], projection=bool(op[2])))
+                    r = np.array(call_get_half(p, op[1], bool(op[2]), op[3] if len(op) > 3 else None))
                     out.append({"rows": rows2d(r, DIM[kind]), "raw_half": np.array(p.get_half_of_hypercube()),
                                 "raw": np.array(p.get_nodes()),
                                 "ci_of": {n: p.G.nodes[n].get("central_index") for n in p.G.nodes}})
@@ -399,8 +454,9 @@ def compare_deep(ctx, kind, levels, snaps, m1, base=None):
         want = MF[mp_] / (np.sqrt(nsq) * unit(kind, k))[:, None]
         if snap["proj"].shape != want.shape or not np.allclose(snap["proj"], want, rtol=0, atol=TOL):
             ctx.corr(f"{kind}/projection at level {k}", case, None, None)
-        ctx.nt(("deep" if not base else "observe:" + json.dumps(base.get("obs")), kind, k))
-        ctx.branch(f"{kind}_level_{k}" if not base else f"observed_{kind}_level_{k}")
+        obsd = bool(base) and base.get("type") == "observe"
+        ctx.nt(("deep" if not obsd else "observe:" + json.dumps(base.get("obs")), kind, k))
+        ctx.branch(f"{kind}_level_{k}" if not obsd else f"observed_{kind}_level_{k}")
         ctx.branch("nodes_compared", len(mp))
         ctx.branch("edges_compared", len(e_m))
     return maps
@@ -427,7 +483,9 @@ def deep_stage1(ctx, case, m1_future=None):
     """implementation + oracle + structural correspondence; returns the data phase 2 needs (or None)"""
     kind, levels = case["kind"], case["levels"]
     ctx.count()
-    snaps, err = impl_deep(kind, levels)
+    rep = case.get("rep")
+    base = case if rep else None
+    snaps, err = impl_deep(kind, levels, rep)
     if err is not None and not err.get("stopped"):
         what = "construction" if err["at"] == 0 else f"division {err['at']}"
         fail_once(ctx, "C18:exception", f"{kind}: {what} raised {err['err']}: {err.get('msg')}",
@@ -436,7 +494,7 @@ def deep_stage1(ctx, case, m1_future=None):
             return None
     prev = None
     for k, s in enumerate(snaps):
-        oracle_snapshot(ctx, kind, k, s, prev)
+        oracle_snapshot(ctx, kind, k, s, prev, base=base)
         prev = s
     m1 = m1_future.result() if m1_future is not None else model_build(ctx, kind, levels, None, True)
     if len(m1) > len(_M1.get(kind, [])):
@@ -450,7 +508,7 @@ def deep_stage1(ctx, case, m1_future=None):
         m1 = m1[:len(snaps)]
         levels = len(snaps) - 1
         case = {"type": "deep", "kind": kind, "levels": levels}
-    maps = compare_deep(ctx, kind, levels, snaps, m1)
+    maps = compare_deep(ctx, kind, levels, snaps, m1, base=base)
     if maps is None:
         return None
     tabs, why = derive_sigma(kind, m1, snaps, maps)
@@ -513,31 +571,31 @@ def _half(p):
 
 # name -> (classes it exists for, highest level it is called at (cost), call)
 OBSERVERS = {
-    "str": (KINDS, 9, lambda p: str(p)),
-    "get_nodes": (KINDS, 9, lambda p: p.get_nodes()),
-    "get_nodes_proj": (KINDS, 9, lambda p: p.get_nodes(projection=True)),
-    "get_nodes_N": (KINDS, 9, lambda p: p.get_nodes(N=_half(p))),
-    "get_nodes_N_proj": (KINDS, 9, lambda p: p.get_nodes(N=_half(p) // 2, projection=True)),
-    "get_neighbours_of": (KINDS, 9, lambda p: p.get_neighbours_of(0)),
-    "get_polytope_adj_matrix": (KINDS, 9, lambda p: p.get_polytope_adj_matrix()),
-    "get_cdist_matrix": (KINDS, 9, lambda p: p.get_cdist_matrix()),
-    "get_edges_of_categories": (KINDS, 9, lambda p: p.get_edges_of_categories()),
-    "get_edges_of_categories_0": (KINDS, 9, lambda p: p.get_edges_of_categories(categories=[0], data=True)),
-    "count_of_point_categories": (KINDS, 9, lambda p: p._get_count_of_point_categories()),
-    "count_of_edge_categories": (KINDS, 9, lambda p: p._get_count_of_edge_categories()),
-    "get_N_element_graph": (KINDS, 1, lambda p: p.get_N_element_graph(p.get_nodes(N=_half(p), projection=True))),
-    "get_half_of_hypercube": (("cube4",), 9, lambda p: p.get_half_of_hypercube()),
-    "get_half_of_hypercube_proj_N": (("cube4",), 9, lambda p: p.get_half_of_hypercube(projection=True, N=_half(p) // 2)),
-    "get_all_cells": (("cube4",), 9, lambda p: p.get_all_cells()),
-    "get_all_cells_include_only": (("cube4",), 9, lambda p: p.get_all_cells(include_only=p.get_half_of_hypercube())),
-    "get_cdist_matrix_full_N": (("cube4",), 9, lambda p: p.get_cdist_matrix(only_half_of_cube=False, N=_half(p))),
-    "get_cdist_matrix_half_N": (("cube4",), 9, lambda p: p.get_cdist_matrix(only_half_of_cube=True, N=_half(p) // 2)),
-    "get_polytope_adj_matrix_plain": (("cube4",), 9, lambda p: p.get_polytope_adj_matrix(include_opposing_neighbours=False,
-                                                                                           only_half_of_cube=False)),
-    "get_polytope_adj_matrix_opposing": (("cube4",), 9, lambda p: p.get_polytope_adj_matrix(include_opposing_neighbours=True,
-                                                                                              only_half_of_cube=False)),
-    "get_neighbours_of_plain": (("cube4",), 9, lambda p: p.get_neighbours_of(0, include_opposing_neighbours=False,
-                                                                             only_half_of_cube=False)),
+    "str": (KINDS, 9, lambda p, r: str(p)),
+    "get_nodes": (KINDS, 9, lambda p, r: p.get_nodes()),
+    "get_nodes_proj": (KINDS, 9, lambda p, r: p.get_nodes(projection=B(r, True))),
+    "get_nodes_N": (KINDS, 9, lambda p, r: p.get_nodes(N=I(r, _half(p)))),
+    "get_nodes_N_proj": (KINDS, 9, lambda p, r: call_get_nodes(p, _half(p) // 2, True, r)),
+    "get_neighbours_of": (KINDS, 9, lambda p, r: p.get_neighbours_of(I(r, 0))),
+    "get_polytope_adj_matrix": (KINDS, 9, lambda p, r: p.get_polytope_adj_matrix()),
+    "get_cdist_matrix": (KINDS, 9, lambda p, r: p.get_cdist_matrix()),
+    "get_edges_of_categories": (KINDS, 9, lambda p, r: p.get_edges_of_categories()),
+    "get_edges_of_categories_0": (KINDS, 9, lambda p, r: p.get_edges_of_categories(categories=[I(r, 0)], data=True)),
+    "count_of_point_categories": (KINDS, 9, lambda p, r: p._get_count_of_point_categories()),
+    "count_of_edge_categories": (KINDS, 9, lambda p, r: p._get_count_of_edge_categories()),
+    "get_N_element_graph": (KINDS, 1, lambda p, r: p.get_N_element_graph(p.get_nodes(N=I(r, _half(p)), projection=B(r, True)))),
+    "get_half_of_hypercube": (("cube4",), 9, lambda p, r: p.get_half_of_hypercube()),
+    "get_half_of_hypercube_proj_N": (("cube4",), 9, lambda p, r: call_get_half(p, _half(p) // 2, True, r)),
+    "get_all_cells": (("cube4",), 9, lambda p, r: p.get_all_cells()),
+    "get_all_cells_include_only": (("cube4",), 9, lambda p, r: p.get_all_cells(include_only=p.get_half_of_hypercube())),
+    "get_cdist_matrix_full_N": (("cube4",), 9, lambda p, r: p.get_cdist_matrix(only_half_of_cube=B(r, False), N=I(r, _half(p)))),
+    "get_cdist_matrix_half_N": (("cube4",), 9, lambda p, r: p.get_cdist_matrix(only_half_of_cube=B(r, True), N=I(r, _half(p) // 2))),
+    "get_polytope_adj_matrix_plain": (("cube4",), 9, lambda p, r: p.get_polytope_adj_matrix(
+        include_opposing_neighbours=B(r, False), only_half_of_cube=B(r, False))),
+    "get_polytope_adj_matrix_opposing": (("cube4",), 9, lambda p, r: p.get_polytope_adj_matrix(
+        include_opposing_neighbours=B(r, True), only_half_of_cube=B(r, False))),
+    "get_neighbours_of_plain": (("cube4",), 9, lambda p, r: p.get_neighbours_of(
+        I(r, 0), include_opposing_neighbours=B(r, False), only_half_of_cube=B(r, False))),
 }
 
 
@@ -570,13 +628,13 @@ def fp_diff(a, b):
     return None
 
 
-def call_observer(p, name):
+def call_observer(p, name, rep=None):
     """returns (error name or None, description of a change of the object or None)"""
     before = fingerprint(p)
     err = None
     try:
         with core.quiet():
-            OBSERVERS[name][2](p)
+            OBSERVERS[name][2](p, rep)
     except Exception as e:
         err = core.errname(e)
     return err, fp_diff(before, fingerprint(p))
@@ -590,17 +648,19 @@ def impl_observe(case):
         with core.quiet():
             p = _cls(kind)()
         for k in range(levels + 1):
-            snaps.append(snapshot(p, kind))
+            snaps.append(snapshot(p, kind, case.get("rep")))
             if k == levels:
                 break
-            for lvl, name in case["obs"]:
+            for ob in case["obs"]:
+                lvl, name = ob[0], ob[1]
+                orep = ob[2] if len(ob) > 2 else None
                 if lvl == k and name in OBSERVERS and kind in OBSERVERS[name][0]:
-                    err, changed = call_observer(p, name)
-                    events.append({"level": k, "name": name, "err": err, "changed": changed})
+                    err, changed = call_observer(p, name, orep)
+                    events.append({"level": k, "name": name, "rep": orep, "err": err, "changed": changed})
             with core.quiet():
                 p.divide_edges()
             if p.G.number_of_nodes() != len(oracle_lattice(kind, k + 1)):
-                snaps.append(snapshot(p, kind))
+                snaps.append(snapshot(p, kind, case.get("rep")))
                 return snaps, {"err": "stopped", "at": k + 2, "stopped": True}, events
         return snaps, None, events
     except Exception as e:
@@ -624,10 +684,10 @@ def shrink_observe(case, failures, budget_s=150):
     import time
     t0 = time.time()
     kf = min(f[2]["levels"] for f in failures)
-    for lvl, name in case["obs"]:
-        if lvl >= kf or time.time() - t0 > budget_s:
+    for ob in case["obs"]:
+        if ob[0] >= kf or time.time() - t0 > budget_s:
             continue
-        c2 = {"type": "observe", "kind": case["kind"], "levels": kf, "obs": [[lvl, name]]}
+        c2 = dict(case, levels=kf, obs=[ob])
         snaps, err, _ = impl_observe(c2)
         rec = _Rec()
         oracle_observe(rec, c2, snaps, err)
@@ -648,7 +708,8 @@ def check_observe(ctx, case):
             fail_once(ctx, key, what + " [history with read-only calls between the subdivisions]", c, exp, obs)
     # correspondence: an observer is the identity step of the model
     for ev in events:
-        sub = {"type": "observe", "kind": kind, "levels": ev["level"] + 1, "obs": [[ev["level"], ev["name"]]]}
+        sub = {"type": "observe", "kind": kind, "levels": ev["level"] + 1,
+               "obs": [[ev["level"], ev["name"]] + ([ev["rep"]] if ev.get("rep") else [])]}
         if ev["changed"]:
             ctx.corr(f"{kind}/read-only call {ev['name']} at level {ev['level']} changed the polytope object "
                      f"(identity step `observe` of the model)", sub, ev["changed"], "unchanged")
@@ -670,6 +731,94 @@ def check_observe(ctx, case):
                 "observer_calls": len(events)})
 
 
+# the calls of the representation sweep: name -> (classes, f(p, rep)); every flag / integer goes through B / I
+def _rep_calls(kind, n):
+    h = max(1, n // 2)
+    calls = {}
+    for N in (None, 0, 1, h, n, n + 1):
+        for pr in (False, True):
+            calls[f"get_nodes(N={N}, projection={pr})"] = (lambda p, r, N=N, pr=pr: call_get_nodes(p, N, pr, r), pr)
+    calls["get_neighbours_of(3)"] = (lambda p, r: p.get_neighbours_of(I(r, 3)) if kind != "cube4" else
+                                     p.get_neighbours_of(I(r, 3), B(r, False), B(r, False)), False)
+    calls["get_edges_of_categories([0])"] = (lambda p, r: len(p.get_edges_of_categories(categories=[I(r, 0)])), False)
+    if kind == "cube4":
+        for N in (None, 0, 1, h // 2, h, h + 1):
+            for pr in (False, True):
+                calls[f"get_half_of_hypercube(projection={pr}, N={N})"] = (lambda p, r, N=N, pr=pr: call_get_half(p, N, pr, r), pr)
+        for a in (False, True):
+            for b_ in (False, True):
+                calls[f"get_polytope_adj_matrix({a}, {b_})"] = (lambda p, r, a=a, b_=b_: p.get_polytope_adj_matrix(
+                    include_opposing_neighbours=B(r, a), only_half_of_cube=B(r, b_)).toarray(), False)
+                calls[f"get_neighbours_of(3, {a}, {b_})"] = (lambda p, r, a=a, b_=b_: p.get_neighbours_of(
+                    I(r, 3), include_opposing_neighbours=B(r, a), only_half_of_cube=B(r, b_)), False)
+            calls[f"get_cdist_matrix({a}, N={h // 2})"] = (lambda p, r, a=a: p.get_cdist_matrix(B(r, a), I(r, h // 2)), False)
+    return calls
+
+
+def _outcome(f):
+    try:
+        with core.quiet():
+            return {"ok": np.asarray(f(), dtype=float)}
+    except Exception as e:
+        return {"err": core.errname(e)}
+
+
+def rep_variants(case):
+    if case.get("call"):
+        return [(case["call"], case["rep"])]
+    out = []
+    for bf in BOOL_FAMS:
+        for pos in (False, True):
+            out.append((None, {"b": bf, "i": "py", "pos": pos}))
+    for nf in INT_FAMS:
+        for pos in (False, True):
+            out.append((None, {"b": "py", "i": nf, "pos": pos}))
+    return out
+
+
+def check_rep(ctx, case):
+    """{"type": "rep", "kind", "level" [, "call", "rep"]}: every call in every representation family against the plain Python
+    call on the same object; projected rows must be unit-length nodes whatever the form of the flag"""
+    kind, level = case["kind"], case["level"]
+    try:
+        with core.quiet():
+            p = _cls(kind)()
+            for _ in range(level):
+                p.divide_edges()
+    except Exception as e:
+        fail_once(ctx, "C18:exception", f"{kind}: construction / division raised {core.errname(e)}", case)
+        return
+    n = p.G.number_of_nodes()
+    calls = _rep_calls(kind, n)
+    refs = {}
+    for only, rep in rep_variants(case):
+        for name, (f, projected) in calls.items():
+            if only and name != only:
+                continue
+            ctx.count()
+            if name not in refs:
+                refs[name] = _outcome(lambda: f(p, None))
+            ref = refs[name]
+            got = _outcome(lambda: f(p, rep))
+            sub = {"type": "rep", "kind": kind, "level": level, "call": name, "rep": rep}
+            same = ("err" in ref and ref == got) or ("ok" in ref and "ok" in got and ref["ok"].shape == got["ok"].shape
+                                                     and np.array_equal(ref["ok"], got["ok"], equal_nan=True))
+            if projected and "ok" in got and got["ok"].size:
+                nr = np.linalg.norm(got["ok"], axis=1)
+                if not np.allclose(nr, 1, rtol=0, atol=TOL):
+                    fail_once(ctx, "C18:projection", f"{kind}: {name} called with the flag / N as {rep} returns rows that are not "
+                              f"scaled to unit length (level {level})", sub, 1.0, float(nr[np.argmax(np.abs(nr - 1))]))
+                    continue
+            if not same:
+                fail_once(ctx, "C18:representation", f"{kind}: {name} depends on the representation of its arguments ({rep}) "
+                          f"(level {level})", sub, ref.get("err") or ref["ok"].ravel()[:6].tolist(),
+                          got.get("err") or got["ok"].ravel()[:6].tolist())
+            ctx.nt(("rep", kind, level, name, json.dumps(rep, sort_keys=True)))
+            ctx.branch("rep_bool_" + rep["b"] if rep["i"] == "py" else "rep_int_" + rep["i"])
+    ctx.branch("rep_calls_" + kind, len(calls))
+
+
+
 def gen_observe(ctx):
     """quick: per class one history to the deepest level with EVERY observer at EVERY level below it (seed-chosen order);
     thorough: additionally seed-chosen subsets / orders"""
@@ -681,8 +830,8 @@ def gen_observe(ctx):
         for k in range(lv[kind]):
             names = observers_for(kind, k)
             rng.shuffle(names)
-            obs += [[k, n] for n in names]
-        out.append({"type": "observe", "kind": kind, "levels": lv[kind], "obs": obs})
+            obs += [[k, n, draw_rep(rng)] for n in names]
+        out.append({"type": "observe", "kind": kind, "levels": lv[kind], "obs": obs, "rep": draw_rep(rng)})
     if not ctx.quick:
         for kind, n, lmax in (("ico", 8, 3), ("cube3", 8, 3), ("cube4", 3, 2)):
             for _ in range(n):
@@ -690,8 +839,8 @@ def gen_observe(ctx):
                 obs = []
                 for k in range(L):
                     names = observers_for(kind, k)
-                    obs += [[k, nm] for nm in rng.sample(names, rng.randint(1, min(4, len(names))))]
-                out.append({"type": "observe", "kind": kind, "levels": L, "obs": obs})
+                    obs += [[k, nm, draw_rep(rng)] for nm in rng.sample(names, rng.randint(1, min(4, len(names))))]
+                out.append({"type": "observe", "kind": kind, "levels": L, "obs": obs, "rep": draw_rep(rng)})
     return out
 
 
@@ -884,12 +1033,12 @@ def gen_histories(ctx):
                 k += 1
                 continue
             if r > 0.8:
-                ops.append(["O", rng.choice(observers_for(kind, k))])
+                ops.append(["O", rng.choice(observers_for(kind, k)), draw_rep(rng)])
                 continue
             half = kind == "cube4" and rng.random() < 0.5
             n = sizes[kind][k] // (2 if half else 1)
             N = rng.choice([None, None, 0, 1, n - 1, n, n + 1, rng.randint(0, n), rng.randint(0, n)])
-            ops.append(["H" if half else "G", N, rng.random() < 0.4])
+            ops.append(["H" if half else "G", N, rng.random() < 0.4, draw_rep(rng)])
         out.append({"type": "history", "kind": kind, "ops": ops})
     if not ctx.quick:
         out.append({"type": "history", "kind": "cube4", "ops": [["H", None, False], ["D"], ["G", 80, True], ["D"], ["H", 272, True], ["H", 273, False], ["G", 544, False]]})
@@ -912,6 +1061,8 @@ def dispatch(ctx, cases):
     for c in cases:
         if c.get("type") == "observe":
             check_observe(ctx, c)
+        if c.get("type") == "rep":
+            check_rep(ctx, c)
     hist = [c for c in cases if c.get("type") == "history"]
     if hist:
         check_histories(ctx, hist)
@@ -938,7 +1089,7 @@ def run(ctx):
         stages = []
         for kind in KINDS:
             t1 = time.time()
-            stages.append(deep_stage1(ctx, {"type": "deep", "kind": kind, "levels": lv[kind]}, futs[kind]))
+            stages.append(deep_stage1(ctx, {"type": "deep", "kind": kind, "levels": lv[kind], "rep": draw_rep(ctx.rng)}, futs[kind]))
             T[f"deep_{kind}_impl_oracle_compare_s"] = round(time.time() - t1, 1)
         stages = [s for s in stages if s is not None]
         # phase 2: the same builds with the offset tables read off the implementation
@@ -952,6 +1103,13 @@ def run(ctx):
     for c in gen_observe(ctx):
         check_observe(ctx, c)
     T["observer_histories_s"] = round(time.time() - t1, 1)
+    t1 = time.time()
+    for c in ({"type": "rep", "kind": "ico", "level": 1}, {"type": "rep", "kind": "cube3", "level": 2},
+              {"type": "rep", "kind": "cube4", "level": 1}):
+        check_rep(ctx, c)
+    T["representation_sweep_s"] = round(time.time() - t1, 1)
+    ctx.extra_cov["representations"] = {"bool_families": list(BOOL_FAMS), "int_families": list(INT_FAMS),
+                                        "passing": ["keyword", "positional"], "excluded": REP_EXCLUDED}
     t1 = time.time()
     check_histories(ctx, hist)
     T["histories_s"] = round(time.time() - t1, 1)
@@ -973,6 +1131,9 @@ def run(ctx):
     ctx.note("read-only observers (every public getter of the three classes, get_all_cells, adjacency / distance matrices, ...) are "
              "identity steps of the model (Molgri.Polytope.observe, theorem observe_id / history_state); on the implementation the "
              "complete graph is compared before and after every call and the statement is evaluated after the whole history")
+    ctx.note("every flag / integer argument handed to the package is drawn per case from the representation families listed under "
+             "'representations' (all accepted and equivalent on the unchanged tree); an exhaustive sweep of all families over three small "
+             "fixed polytopes runs on every run; the model takes the denoted values")
     ctx.note("the only_seconds search filter of _add_edges_of_len is not modelled; complete edge sets are compared at every level")
 
 
